@@ -6,7 +6,7 @@
 //!
 //! * recorded inputs: the texts that made DisjunctionParser::parse panic before fix commit a0866e9 (a character index used as a byte
 //!   offset of the &str: `(é OR b)`), and neighbours of them.
-//! * bounded search: every string of at most 5 tokens over an alphabet with multi-byte characters, spaces, parentheses, quotes and the
+//! * bounded search: every string of at most 4-5 (thorough tier: 5-6) tokens over an alphabet with multi-byte characters, spaces, parentheses, quotes and the
 //!   keywords of these parsers, wrapped the way each parser expects its text; every call under `catch_unwind`.
 //! (The 2 GiB text that overflowed the i32 parenthesis counter of `find_operator` — fix commit 57c09f9 — is not replayed here: it needs
 //!  2 GiB of memory and 45 s in a debug build.)
@@ -67,14 +67,15 @@ fn c05_disjunction_parser_recorded() -> (bool, String) {
 
 fn c05_disjunction_parser_search() -> (bool, String) {
     with_silent_panics(|| {
-        let (tried, bad) = enumerate(5, |s| {
+        let max_len = crate::bound(5, 6);
+        let (tried, bad) = enumerate(max_len, |s| {
             let a = format!("({})", s);
             let b = s.to_string();
             quiet(move || { let _ = DisjunctionParser::parse(&a); let _ = DisjunctionParser::contains_or(&b); }).is_ok()
         });
         match bad {
             Some(s) => (true, format!("DisjunctionParser::parse(\"({})\") / contains_or({:?}) panicked (expected: a value)", s, s)),
-            None => (false, format!("{} strings of <= 5 tokens over {:?}: DisjunctionParser::parse / contains_or returned", tried, TOKENS)),
+            None => (false, format!("{} strings of <= {} tokens over {:?}: DisjunctionParser::parse / contains_or returned", tried, max_len, TOKENS)),
         }
     })
 }
@@ -83,7 +84,8 @@ fn c05_nested_and_aggregate_parser_search() -> (bool, String) {
     use rust_rule_engine::backward::aggregation::parse_aggregate_query;
     use rust_rule_engine::backward::nested::NestedQueryParser;
     with_silent_panics(|| {
-        let (tried, bad) = enumerate(4, |s| {
+        let max_len = crate::bound(4, 5);
+        let (tried, bad) = enumerate(max_len, |s| {
             let a = s.to_string();
             quiet(move || {
                 let _ = NestedQueryParser::parse(&a);
@@ -95,7 +97,7 @@ fn c05_nested_and_aggregate_parser_search() -> (bool, String) {
         });
         match bad {
             Some(s) => (true, format!("nested::NestedQueryParser::parse / has_nested / aggregation::parse_aggregate_query panicked on {:?} (or on \"count(\" + it)", s)),
-            None => (false, format!("{} strings of <= 4 tokens: nested::NestedQueryParser::parse, has_nested, parse_aggregate_query returned", tried)),
+            None => (false, format!("{} strings of <= {} tokens: nested::NestedQueryParser::parse, has_nested, parse_aggregate_query returned", tried, max_len)),
         }
     })
 }
@@ -105,8 +107,9 @@ fn c05_evaluate_expression_multibyte_search() -> (bool, String) {
         let facts = Facts::new();
         let toks = ["a", "é", "€", " ", "+", "-", "*", "%", "(", ")", "\"", "'", "1", "0"];
         let n = toks.len() as u64;
+        let max_len = crate::bound(4, 5) as u32;
         let mut tried = 0u64;
-        for len in 1..=4u32 {
+        for len in 1..=max_len {
             for c in 0..n.pow(len) {
                 let mut s = String::new();
                 let mut d = c;
@@ -122,7 +125,7 @@ fn c05_evaluate_expression_multibyte_search() -> (bool, String) {
                 }
             }
         }
-        (false, format!("{} strings of <= 4 tokens over {:?}: evaluate_expression returned", tried, toks))
+        (false, format!("{} strings of <= {} tokens over {:?}: evaluate_expression returned", tried, max_len, toks))
     })
 }
 
